@@ -44,3 +44,31 @@ def export_pure(c_empty: int, r_empty: int, which: int) -> bool:
     else:
         a, b = t.to_csv(), t.to_csv()
     return done(S.canon(node) == before and t.size == size and a == b and t._tmap == Table(tag_or_elem=node)._tmap)
+
+
+def text_export_twice(n_notes: int, header: bool, simple: bool, t: str) -> bool:
+    """
+    pre: 0 <= n_notes <= 2 and len(t) <= 1 and all(c in "ab" for c in t)
+    post: _
+    """
+    # Paragraph / Header .get_formatted_text() on the element itself (no context given), holding notes
+    # without citation label (numbered by the exporter): the same answer twice, the same answer from an
+    # identical element built afresh, and the element untouched
+    from odfdo.header import Header
+    from odfdo.note import Note
+    from odfdo.paragraph import Paragraph
+
+    def build():
+        e = Header(1, "T" + t) if header else Paragraph("T" + t)
+        for i in range(n_notes):
+            e.append(Note(note_class="footnote", note_id="n%d" % i, body="note"))
+            e.append("x")
+        return e
+
+    e1, e2 = build(), build()
+    node = e1._Element__element
+    before = S.canon(node)
+    a = e1.get_formatted_text(simple=simple) if not header else e1.get_formatted_text(simple=simple)
+    b = e1.get_formatted_text(simple=simple)
+    c = e2.get_formatted_text(simple=simple)
+    return done(a == b and a == c and S.canon(node) == before)
